@@ -272,6 +272,11 @@ func (r *runner) seenBest() bool { return int(atomic.LoadInt32(&r.out.nBest)) >=
 func (r *runner) run(steps int) {
 	waitMode := r.rng.Intn(3) == 0 // wait for every answer before the next step (no races) or let things race
 	alive := true
+	if r.rng.Intn(2) == 0 {
+		// pondering enabled from the start in half of the scenarios
+		r.ponderOn = true
+		r.send("pos", "setoption name Ponder value true")
+	}
 	for i := 0; i < steps && alive && !r.quit; i++ {
 		r.jitter()
 		if r.searchLive && r.seenBest() {
@@ -323,7 +328,8 @@ func (r *runner) run(steps int) {
 			ponder := r.ponderOn && r.rng.Intn(2) == 0
 			text := "go depth 3"
 			if r.real {
-				text = []string{"go depth 1", "go depth 4", "go nodes 3000", "go movetime 15", "go wtime 300 btime 300", "go infinite", "go depth 6 movetime 5"}[r.rng.Intn(7)]
+				text = []string{"go depth 1", "go depth 4", "go nodes 3000", "go movetime 15", "go wtime 300 btime 300", "go infinite", "go depth 6 movetime 5",
+					"go nodes 1500", "go nodes 777 depth 40", "go nodes 1", "go depth 3 nodes 100000", "go wtime 50 btime 50 winc 10 binc 10"}[r.rng.Intn(12)]
 			} else if r.rng.Intn(3) == 0 {
 				text = "go movetime 5"
 			}
